@@ -105,6 +105,10 @@ def reconfig_cases(draw, tier='quick'):
     cfg = draw(configs(tier, clip_modes=((None, None), (True, None), (False, None), (True, True), (None, True))))
     n = cfg['maxiter']
     hows = ['evalmon', 'penalty', 'constraints', 'finalize'] + (['ranges', 'ranges'] if cfg.get('bounds') else [])
+    if cfg['solver'] == 'NM' and cfg.get('bounds') and not cfg.get('reducer'):
+        # one change that is not benign, where the solver is built to follow it: Nelder-Mead with strict ranges evaluates
+        # its whole simplex again after a re-decoration, so from the next boundary on every stored energy is the new objective
+        hows += ['penalty2', 'penalty2']
     k = draw(st.integers(1, 3))
     cfg['reconfig'] = [[draw(st.integers(0, max(0, n - 1))), draw(st.sampled_from(hows))] for _ in range(k)]
     cfg['resume'] = draw(st.sampled_from([0, 0, 2, 4]))
@@ -122,6 +126,9 @@ def _reconfigure(run, how):
         s.SetConstraints(run.con)
     elif how == 'finalize':
         s.Finalize()
+    elif how == 'penalty2':
+        run.pen = lab.make_penalty(dict(kind='plain', i=0, c=-0.5, k=3.0))
+        s.SetPenalty(run.pen)
     elif how == 'ranges':
         b = run.cfg['bounds']
         s.SetStrictRanges(list(run.box[0]), list(run.box[1]), tight=b.get('tight'), clip=b.get('clip'))
@@ -141,11 +148,15 @@ def run_reconfig(case, ctx):
         if len(run.callbacks) == boundaries + 1:
             boundaries += 1
             check_boundary(run, ctx, b)
+            did_here = []
             for how in plan.pop(boundaries - 1, []):
                 if not msg:
                     _reconfigure(run, how); did.append(how)
                     # nothing has been evaluated: the best and its energy are what they were
-                    check_best_only(run, ctx, 'after ' + how)
+                    if how == 'penalty2' or 'penalty2' in did_here:
+                        did_here.append(how)     # (the energies are those of the old objective until the next iteration)
+                    else:
+                        check_best_only(run, ctx, 'after ' + how)
         b += 1
         if msg:
             if case['resume'] and not resumed and boundaries >= 1:
